@@ -107,3 +107,5 @@ func safeCall(f func()) (panicked string) {
 
 var _ = rec.New
 var _ sync.Mutex
+
+func stringsContains(s, sub string) bool { return strings.Contains(s, sub) }
